@@ -43,7 +43,9 @@ var litBodies = []string{"x", "sensor%", "a b", "%room%", "", " ", "100%", "ok",
 	"LIMIT 5", "x LIMIT 5 y", "ORDER BY a", "ORDER BY a DESC LIMIT 1", "WHERE", "a FROM b", "GROUP BY g", "HAVING c > 1",
 	"SELECT * FROM t", "limit", "AS", "MATCH_RECOGNIZE (", "SlidingWindow", "AND", "OR 1=1", "a,b", "(", ")", "a)b(", "--", "`", "a`b",
 	"WITH (TIMESTAMP=ts)", "from", "select", "JOIN m ON", "x, y FROM z", ") FROM (", "it's", "say \"hi\"", "'", "\"", "call me (now)", "f(x)", "sum(a) > 1",
-	"TumblingWindow('1s')", "tag = 'LIMIT'", "a \"ORDER BY\" b"}
+	"TumblingWindow('1s')", "tag = 'LIMIT'", "a \"ORDER BY\" b",
+	// text that looks like an analytic or aggregate call: inside a literal it is text
+	"lag(a)", "latest(x) > 1", "had_changed(true, a)", "count(x)", "max(v) = 3", "x IS NULL", "a LIKE 'b'"}
 
 // callLike matches text that the parser's function validator takes for a function call.
 var callLike = regexp.MustCompile(`[A-Za-z_][A-Za-z0-9_]*\s*\(`)
